@@ -553,16 +553,31 @@ def member_line(code: str, pyname: str = "n", jsonname: str = "n", cls: str | No
 
 
 _captured: dict = {}
+_capture_error: list[str] = []  # why the parser cannot be observed (the internals the harness reaches into changed shape)
 
 
 def _install_capture() -> None:
     """Observe the parser's field record from outside (DESIGN §2.2): remember the Parser instance
-    that `generate()` creates; `parser.results` holds the models as they are when rendered."""
-    import datamodel_code_generator.parser.base as pb
+    that `generate()` creates; `parser.results` holds the models as they are when rendered.
+    This reaches into internals (`parser.base.Parser.parse`): when they are gone or renamed the record
+    becomes `error:capture-unavailable:…`, which the stage-1 campaign reports as a broken correspondence
+    (vlib/realcall.py: a changed shape of a real callee is never a crash of the check)."""
+    from .. import realcall
 
-    if getattr(pb.Parser.parse, "_c05_wrapped", False):
+    _capture_error.clear()
+    try:
+        import datamodel_code_generator.parser.base as pb
+
+        orig = pb.Parser.parse
+    except (ImportError, AttributeError) as e:
+        _capture_error.append(f"{type(e).__name__}: {e}")
         return
-    orig = pb.Parser.parse
+    if getattr(orig, "_c05_wrapped", False):
+        return
+    why = realcall.signature_accepts(orig, object())
+    if why is not None:
+        _capture_error.append(why)
+        return
 
     def parse(self, *a, **k):
         _captured["parser"] = self
@@ -578,6 +593,8 @@ CONSTRAINT_ATTRS = ("max_length", "le", "max_items", "maxLength", "maximum", "ma
 def ir_of_captured(cls: str = "M", pyname: str | None = None) -> str | None:
     """the parser's field record for a member of model `cls` (the first one, or the one named
     `pyname`), in the driver's `irStr` form"""
+    if _capture_error:
+        return "error:capture-unavailable:" + _capture_error[0][:160]
     p = _captured.get("parser")
     if p is None:
         return None
@@ -600,7 +617,17 @@ def ir_of_captured(cls: str = "M", pyname: str | None = None) -> str | None:
             if modname.endswith((".dataclass", ".msgspec")):
                 import importlib
 
-                key = b(importlib.import_module(modname)._has_field_assignment(f))
+                from .. import realcall
+
+                # a private helper of model/dataclass.py and model/msgspec.py: gone / another signature =
+                # a field record that differs from the model's (broken correspondence), not a crash
+                fn = getattr(importlib.import_module(modname), "_has_field_assignment", None)
+                if fn is None:
+                    key = "gone:_has_field_assignment"
+                elif realcall.signature_accepts(fn, f) is not None:
+                    key = "signature:" + str(realcall.signature_accepts(fn, f))[:120].replace(" ", "_")
+                else:
+                    key = b(fn(f))
             return (
                 f"req={b(f.required)} nullable={n} hd={b(f.has_default)} thn={b(f.type_has_null)} "
                 f"sdn={b(f.strip_default_none)} dio={b(f.data_type.is_optional)} cons={cons} alias={b(f.alias is not None)} key={key}"
